@@ -1,7 +1,7 @@
 (* C06 property theorems.  Nothing but statements closed by `exact`, a pin, and
    Print Assumptions.  The driver parses this file's output. *)
 From ZV.Common Require Import Base.
-From ZV.C06 Require Import Model ModelGold ModelEasy ModelIdx Spec ProofsBasic ProofsScan ProofsRefine ProofsSmall ProofsGoldRefine ProofsEasy.
+From ZV.C06 Require Import Model ModelGold ModelEasy ModelIdx Spec ProofsBasic ProofsScan ProofsRefine ProofsSmall ProofsGoldRefine ProofsEasy ProofsIdxRefine.
 Open Scope N_scope.
 
 (* normalize_hash never produces a slot marker, whatever the hasher returned *)
@@ -55,6 +55,22 @@ Check easy_refines_map :
   forall (h : N -> N) (grow : N -> N -> bool) (auto : bool) (c : N) (ops : list op),
     pow2cap c -> Forall2 obs_agree (easy_run h grow auto (init c) ops) (srun [] ops).
 Print Assumptions easy_refines_map.
+
+(* GoldHashIdx (open addressing without tombstones: remove empties the slot and rehash_after_removal takes out
+   and re-places the cluster that follows; values in a separate pool with a free list; growth re-inserts):
+   for EVERY hash function, every requested capacity and every history of the operations the type offers
+   (insert, remove, get, get_mut, contains_key, len - codes 0..5), the model answers like a mathematical map;
+   no loop runs out of fuel (insert's unbounded probe, the re-placement loops) and no value index is invalid. *)
+Theorem idx_refines_map :
+  forall (h : N -> N) (c : N) (ops : list op),
+    Forall (fun o => fst (fst o) <= 5) ops ->
+    Forall2 obs_agree (irun h (iinit c) ops) (srun [] ops).
+Proof. exact idx_refines_map_proof. Qed.
+Check idx_refines_map :
+  forall (h : N -> N) (c : N) (ops : list op),
+    Forall (fun o => fst (fst o) <= 5) ops ->
+    Forall2 obs_agree (irun h (iinit c) ops) (srun [] ops).
+Print Assumptions idx_refines_map.
 
 (* remove_standard's probe loop (no tombstone branch) finds exactly what get_standard's finds *)
 Theorem remove_loop_is_get_loop :
